@@ -70,6 +70,28 @@ def main(ctx):
         elif not near and (r["ra"] != j["ra"] or r["rb"] != j["rb"] or r["lt"] != j["lt"] or r["gt"] != j["gt"]):
             ctx.violation("render_or_compare", rec, what="instants +%dus/+%dus at %s: spec renders %s/%s lt=%s gt=%s, code %s/%s lt=%s gt=%s" % (
                 j["a"], j["b"], b, j["ra"], j["rb"], j["lt"], j["gt"], r["ra"], r["rb"], r["lt"], r["gt"]))
+    # the timestamp object under in-place arithmetic (spec/TsObject.tla): a memoised rendering never outlives the value it renders
+    cfg2 = os.path.join(wd, "tsobject.cfg")
+    tlc.write_cfg(cfg2, ["SPECIFICATION Spec", "INVARIANT Coherent", "INVARIANT ShownIsValue", "CONSTRAINT Emit", "CHECK_DEADLOCK FALSE",
+                         "CONSTANT MaxOps = %d" % (3 if ctx.quick else 4)])
+    r2 = ctx.tlc("timestamp-object", "TsObject", cfg2, spec_dir=wd, timeout=1700, workers=4)
+    hist = [j for j in r2.json if j.get("k") == "ts"]
+    if not hist:
+        ctx.machinery.append("no histories from TsObject")
+        return
+    hjobs = [(b, j) for b in (BASES[1:3] if ctx.quick else BASES) for j in hist]
+    for (b, j), r in zip(hjobs, core.pmap(timeslib.ts_probe, hjobs, chunksize=256)):
+        ev.case(key=("ts", b, j["start"], json.dumps(j["h"])), nontrivial=any(op != "str" and d < 1000 for op, d in j["h"]) and any(op == "str" for op, d in j["h"]))
+        if abs(j["u"] % 1000 - 500) <= 3:
+            continue                # within float error of a rounding tie
+        rec = {"base": b, "history": j, "got": r}
+        if r["exc"] or r["shown"] != j["r"] or r["fresh"] != j["r"] or not r["eq"]:
+            ctx.violation("timestamp_object", rec, what="timestamp %s+%dus after %s shows %s ms (%s), its value renders %s ms (spec %s), equal to a fresh one: %s %s" % (
+                b, j["start"], j["h"], r["shown"], r["utc"], r["fresh"], j["r"], r["eq"], r["exc"]))
+        elif (r["lt0"] and not r["shown"] < r["orig"]) or (r["gt0"] and not r["shown"] > r["orig"]):
+            ctx.violation("timestamp_object_order", rec, what="timestamp %s+%dus after %s compares lt=%s gt=%s to the original but shows %s ms vs %s ms" % (
+                b, j["start"], j["h"], r["lt0"], r["gt0"], r["shown"], r["orig"]))
+    ev.extra["timestamp_object_histories"] = len(hjobs)
     # zones
     import zoneinfo
     allz = sorted(z for z in zoneinfo.available_timezones() if "/" in z and not z.startswith(("Etc/", "posix/", "right/")))
